@@ -111,6 +111,10 @@ class BaseG2Ciphersuite(ABC):
 
     @staticmethod
     def KeyValidate(PK: BLSPubkey) -> bool:
+        # A public key is exactly 48 bytes; the decoder below ignores any
+        # higher-order bytes, so over-long inputs must be refused here.
+        if not BaseG2Ciphersuite._is_valid_pubkey(PK):
+            return False
         try:
             pubkey_point = pubkey_to_G1(PK)
         except (ValidationError, ValueError, AssertionError):
